@@ -7,6 +7,7 @@
 -/
 import AHP.Lemmas.BuilderTop
 import AHP.Lemmas.WrapStr
+import AHP.Lemmas.WrapLexFeed
 namespace AHP.C02
 open AHP AHP.Spec
 
@@ -345,6 +346,138 @@ example : AfterDoctype "<!doctype html><a></a><b></b>".toList :=
   ((addStartTag_cases _).2.2.1).mpr (by decide)
 example : wrapStr "\n  <!DOCTYPE html><a></a>x".toList = "\n  <!DOCTYPE html><xxxblank><a></a>x</xxxblank>".toList := by decide
 example : wrapStr " \n<!DOCTYPE html><a></a>".toList = "<xxxblank> \n<!DOCTYPE html><a></a></xxxblank>".toList := by decide
+
+/-! #### C02f — composition with the strict lexer
+
+  `renderToks` / `ListOK` (Lemmas/LexRoundTrip.lean): the serialisers' output grammar and "every token well formed
+  and followed by something that keeps it a token of its own" — the side condition of `lexStrict_renderToks`.
+  `ListOK` contains the two conditions that matter for the wrapper: a doctype declaration has no `>` inside
+  (`TokOK (.decl d)`), and a data run is not followed by another data run (`Follows`). -/
+
+/-- **C02f (`DOCTYPE_MATCH`: characters = tokens).** On the rendering of a token list in the serialiser's image,
+    `DOCTYPE_MATCH.match` finds exactly the rendering of what `leadDoctype` finds on the tokens: a leading
+    declaration, or a leading data run of the shape `[\n]*[ \t]*` and then the declaration; nothing otherwise. -/
+theorem doctypeMatch_text_eq_tokens (ts : List Token) (h : ListOK ts) :
+    doctypePrefix (renderToks ts) = (leadDoctype ts).map (fun pr => (renderToks pr.1, renderToks pr.2)) :=
+  doctypePrefix_renderToks ts h
+
+/-- **C02f (composition).** The text of the second pass, `addStartTag(text, '<xxxblank>') + '</xxxblank>'`, of the
+    rendering of a token list in the serialiser's image lexes to `wrapToks` of that list: the character-level
+    placement of the wrapper is the token-level one `feed_eq_spec` works with. -/
+theorem wrapText_lex_eq_wrapToks (ts : List Token) (h : ListOK ts) :
+    lexStrict (wrapStr (renderToks ts)) = some (wrapToks ts) :=
+  lexStrict_wrapStr_renderToks ts h
+
+/-- leading doctype token: the wrapper opens directly after it -/
+theorem wrapText_lex_leading_doctype (d : Str) (r : List Token) (h : ListOK (.decl d :: r)) :
+    lexStrict (wrapStr (renderToks (.decl d :: r)))
+      = some (.decl d :: .start wrapperName [] :: r ++ [.end_ wrapperName]) := by
+  rw [wrapText_lex_eq_wrapToks _ h]; rfl
+
+/-- white space of the shape `[\n]*[ \t]*` in front of the doctype: a data token of its own that stays *outside*
+    the wrapper (the builder drops it: `pre_skip`; the specification does not count it as content: `topTokens`) -/
+theorem wrapText_lex_ws_doctype (ws d : Str) (r : List Token) (hws : wsNL ws = true)
+    (h : ListOK (.data ws :: .decl d :: r)) :
+    lexStrict (wrapStr (renderToks (.data ws :: .decl d :: r)))
+      = some (.data ws :: .decl d :: .start wrapperName [] :: r ++ [.end_ wrapperName]) := by
+  rw [wrapText_lex_eq_wrapToks _ h]
+  simp [wrapToks, leadDoctype, hws]
+
+/-- anything else first (including white space of another shape in front of a doctype): the wrapper is in front
+    of everything, the white space and the declaration are inside it -/
+theorem wrapText_lex_other (ts : List Token) (h : ListOK ts) (hl : leadDoctype ts = none) :
+    lexStrict (wrapStr (renderToks ts)) = some (.start wrapperName [] :: ts ++ [.end_ wrapperName]) := by
+  rw [wrapText_lex_eq_wrapToks _ h]
+  simp [wrapToks, hl]
+
+/-- **C02a/f end to end, on text.** For every token list in the serialiser's image that does not mention the
+    reserved wrapper name, parsing the TEXT `renderToks ts` with the two-pass `feed` (lex; build; on
+    MultipleRootNodeException insert the wrapper *into the text*, lex and build again) gives the document of the
+    recursive-descent specification. -/
+theorem feedText_eq_spec (ts : List Token) (h : ListOK ts) (hw : NoWrapper ts) :
+    feedText (renderToks ts) = some (.doc (Spec.build ts).1 (Spec.build ts).2) := by
+  rw [feedText_renderToks ts h, feed_eq_spec ts hw]
+
+/-! non-vacuity: a multi-root document with white space and a doctype in front is in the serialiser's image,
+    does not mention the wrapper, and takes the second pass -/
+private theorem tagOK_a : TagNameOK "a".toList := ⟨⟨'a', [], rfl, by decide⟩, by decide, by decide⟩
+private theorem tagOK_br : TagNameOK "br".toList := ⟨⟨'b', ['r'], rfl, by decide⟩, by decide, by decide⟩
+
+def sampleDoc : List Token :=
+  [.data "\n ".toList, .decl "DOCTYPE html".toList, .start "a".toList [], .end_ "a".toList, .data "x".toList,
+   .start "br".toList []]
+
+theorem sampleDoc_ok : ListOK sampleDoc := by
+  apply listOK_of_noAdjData
+  · intro t ht
+    simp [sampleDoc] at ht
+    rcases ht with rfl | rfl | rfl | rfl | rfl | rfl
+    · exact Or.inr (Or.inr ⟨by decide, by decide⟩)
+    · exact ⟨by decide, by decide⟩
+    · exact ⟨tagOK_a, by decide, fun x hx => by simp at hx⟩
+    · exact tagOK_a
+    · exact Or.inr (Or.inr ⟨by decide, by decide⟩)
+    · exact ⟨tagOK_br, by decide, fun x hx => by simp at hx⟩
+  · intro t ht
+    simp [sampleDoc] at ht
+    rcases ht with rfl | rfl | rfl | rfl | rfl | rfl <;> first | trivial | exact ⟨by decide, by decide⟩
+  · simp [sampleDoc, NoAdjData, isData]
+
+example : NoWrapper sampleDoc := by
+  intro t ht
+  simp [sampleDoc] at ht
+  rcases ht with rfl | rfl | rfl | rfl | rfl | rfl <;> decide
+
+example : renderToks sampleDoc = "\n <!DOCTYPE html><a ></a>x<br >".toList := by decide
+example : wrapStr (renderToks sampleDoc) = "\n <!DOCTYPE html><xxxblank><a ></a>x<br ></xxxblank>".toList := by decide
+example : (Spec.build sampleDoc).2 = true := by decide
+example : feedText (renderToks sampleDoc) = some (.doc (Spec.build sampleDoc).1 true) :=
+  feedText_eq_spec sampleDoc sampleDoc_ok (by
+    intro t ht
+    simp [sampleDoc] at ht
+    rcases ht with rfl | rfl | rfl | rfl | rfl | rfl <;> decide)
+
+/-! the side conditions are needed.
+    (1) A `>` inside the declaration (`TokOK (.decl d)` fails): the tokenizer and `DOCTYPE_MATCH` both end the
+        declaration at the first `>`, the wrapper lands inside what the token list calls the declaration.
+    (2) Two adjacent data runs (`Follows` fails): the text starts `\n <!doctype…`, so the wrapper goes after the
+        declaration, while `leadDoctype` sees two data tokens first and puts it in front.
+    (3) The wrapper's name in the text (`NoWrapper` fails): the stray `</xxxblank>` closes the wrapper early and the
+        second pass raises, where the specification builds a document. -/
+example : lexStrict (wrapStr (renderToks [.decl "doctype a>b".toList, .start "a".toList [], .end_ "a".toList]))
+    ≠ some (wrapToks [.decl "doctype a>b".toList, .start "a".toList [], .end_ "a".toList]) := by decide
+
+example : lexStrict (wrapStr (renderToks [.data "\n".toList, .data " ".toList, .decl "doctype html".toList,
+      .start "a".toList [], .end_ "a".toList]))
+    ≠ some (wrapToks [.data "\n".toList, .data " ".toList, .decl "doctype html".toList,
+      .start "a".toList [], .end_ "a".toList]) := by decide
+
+def strayWrapperEnd : List Token :=
+  [.start "a".toList [], .end_ "a".toList, .end_ wrapperName, .start "a".toList [], .end_ "a".toList]
+
+theorem strayWrapperEnd_ok : ListOK strayWrapperEnd := by
+  apply listOK_of_noAdjData
+  · intro t ht
+    simp [strayWrapperEnd] at ht
+    rcases ht with rfl | rfl | rfl | rfl | rfl
+    · exact ⟨tagOK_a, by decide, fun x hx => by simp at hx⟩
+    · exact tagOK_a
+    · exact wrapper_tagNameOK
+    · exact ⟨tagOK_a, by decide, fun x hx => by simp at hx⟩
+    · exact tagOK_a
+  · intro t ht
+    simp [strayWrapperEnd] at ht
+    rcases ht with rfl | rfl | rfl | rfl | rfl <;> trivial
+  · simp [strayWrapperEnd, NoAdjData, isData]
+
+theorem strayWrapperEnd_raises : feedTokens strayWrapperEnd = .raised .multipleRoot := by rfl
+
+/-- without `NoWrapper` the end-to-end statement fails: the text-level `feed` raises -/
+example : feedText (renderToks strayWrapperEnd)
+    ≠ some (.doc (Spec.build strayWrapperEnd).1 (Spec.build strayWrapperEnd).2) := by
+  rw [feedText_renderToks _ strayWrapperEnd_ok, strayWrapperEnd_raises]
+  intro h
+  cases h
 
 /-! #### Non-vacuity -/
 example : NoWrapper [.start "a".toList [], .data "x".toList, .end_ "b".toList, .start "br".toList []] := by
